@@ -164,7 +164,10 @@ pub fn begin() {
         s.allocs = 0;
         s.frees = 0;
     });
-    TRACKING.with(|t| t.set(true));
+    // under Miri the interpreter itself is the memory monitor: the quarantine would hide frees from it
+    if !cfg!(miri) {
+        TRACKING.with(|t| t.set(true));
+    }
 }
 
 /// Run `f` with tracking suspended (harness bookkeeping whose results outlive the execution).
